@@ -189,15 +189,55 @@ Section Godambe.
     | Some rows => Some (map (fun r => skipn n r) rows)
     end.
 
+  (** the inverse is used only when it certifies itself: A Ai = Ai A = 1 entry by entry (numpy.linalg.inv is outside the
+      modelled code; Gauss-Jordan in exact arithmetic stands in for it, and nothing below relies on its correctness) *)
+  Definition entry (M : list (list F)) (i j : nat) : F := nth j (nth i M []) n0.
+  Definition wf_matb (n : nat) (M : list (list F)) : bool :=
+    Nat.eqb (length M) n && forallb (fun r => Nat.eqb (length r) n) M.
+  Definition mat_eqb (n : nat) (A B : list (list F)) : bool :=
+    forallb (fun i => forallb (fun j => entry A i j =? entry B i j) (seq 0 n)) (seq 0 n).
+  Definition inv_ok (A Ai : list (list F)) : bool :=
+    let n := length A in
+    wf_matb n A && wf_matb n Ai && mat_eqb n (mat_mul A Ai) (ident n) && mat_eqb n (mat_mul Ai A) (ident n).
+  Definition mat_inv_v (A : list (list F)) : option (list (list F)) :=
+    match mat_inv A with
+    | Some Ai => if inv_ok A Ai then Some Ai else None
+    | None => None
+    end.
+
   (** godambe = H J^-1 H ; uncertainties^2 = diag (G^-1) ; LRT adjust = k / trace (J H^-1) ;
       Wald = d^T G d, d^T H d ; score = cU^T J^-1 cU, cU^T H^-1 cU *)
   Definition gim (Hm Jm : list (list F)) : option (list (list F)) :=
-    match mat_inv Jm with None => None | Some Ji => Some (mat_mul (mat_mul Hm Ji) Hm) end.
+    match mat_inv_v Jm with None => None | Some Ji => Some (mat_mul (mat_mul Hm Ji) Hm) end.
   Definition var_of (M : list (list F)) : option (list F) :=
-    match mat_inv M with None => None | Some Mi => Some (diag Mi) end.
+    match mat_inv_v M with None => None | Some Mi => Some (diag Mi) end.
   Definition lrt_adjust (Hm Jm : list (list F)) : option F :=
-    match mat_inv Hm with None => None | Some Hi => Some (nofnat (length Hm) / trace (mat_mul Jm Hi)) end.
+    match mat_inv_v Hm with None => None | Some Hi => Some (nofnat (length Hm) / trace (mat_mul Jm Hi)) end.
   Definition qform (M : list (list F)) (v : list F) : F := ndot v (mat_vec M v).
   Definition qform_inv (M : list (list F)) (v : list F) : option F :=
-    match mat_inv M with None => None | Some Mi => Some (qform Mi v) end.
+    match mat_inv_v M with None => None | Some Mi => Some (qform Mi v) end.
+
+  (** ** LRT_adjust / Wald_stat / score_stat as functions of (H, J, cU) and of the caller's index / value lists *)
+  (** numpy.asarray(v)[idx] *)
+  Definition select (idx : list nat) (v : list F) : list F := map (fun i => nth i v n0) idx.
+  Definition vsub (a b : list F) : list F := map (fun p => fst p - snd p) (combine a b).
+  (** Wald_stat, the parameter difference.  [theta] = Some theta_opt when multinom=True: p0 is extended by theta_opt, and so
+      is full_params when it has the length of p0.  Then full_params is reduced with the nested indices when it has the
+      length of (the extended) p0; anything else must have one value per nested index (else KeyError: None).
+        param_diff = full_params - numpy.asarray(p0)[nested_indices] *)
+  Definition wald_diff (theta : option F) (p0 : list F) (idx : list nat) (full_params : list F) : option (list F) :=
+    let p0' := match theta with Some th => p0 ++ [th] | None => p0 end in
+    let fp := match theta with
+              | Some th => if Nat.eqb (length full_params) (length p0) then full_params ++ [th] else full_params
+              | None => full_params end in
+    let fp' := if Nat.eqb (length fp) (length p0') then select idx fp else fp in
+    if Nat.eqb (length fp') (length idx) then Some (vsub fp' (select idx p0')) else None.
+  (** (adjusted, unadjusted) *)
+  Definition wald_stat (Hm Jm : list (list F)) (d : list F) : option (F * F) :=
+    match gim Hm Jm with None => None | Some G => Some (qform G d, qform Hm d) end.
+  Definition score_stat (Hm Jm : list (list F)) (cU : list F) : option (F * F) :=
+    match qform_inv Jm cU, qform_inv Hm cU with Some a, Some o => Some (a, o) | _, _ => None end.
+  (** the nested parameters listed in another order: rows and columns of H, J and the entries of cU, param_diff are
+      re-listed alike ([idx] then holds positions in the old listing) *)
+  Definition sub_mat (idx : list nat) (M : list (list F)) : list (list F) := map (fun i => select idx (nth i M [])) idx.
 End Godambe.
